@@ -87,6 +87,7 @@ Definition show_err (e : err) : string :=
   | EExponentiationNeedsTypeAnnotation => "ExponentiationNeedsTypeAnnotation"
   | EDerivedUnitDefinitionMustNotBeGeneric => "DerivedUnitDefinitionMustNotBeGeneric"
   | ENoDimensionlessBaseUnit => "NoDimensionlessBaseUnit"
+  | EPanic => "PANIC"
   | EOutOfFuel => "MODEL-OUT-OF-FUEL"
   | EUnsupported => "MODEL-UNSUPPORTED"
   end.
